@@ -15,6 +15,10 @@ from typing import Any
 from .model import FuncInfo
 
 
+PURE_BUILTINS = {'len', 'str', 'bytes', 'int', 'bool', 'isinstance', 'type', 'tuple', 'list', 'set', 'frozenset', 'sorted', 'enumerate', 'zip', 'range',
+                 'min', 'max', 'any', 'all', 'repr', 'ord', 'chr', 'iter', 'next', 'id', 'hash', 'getattr', 'hasattr'}
+
+
 def _key(n: ast.AST) -> str | None:
     if isinstance(n, ast.Name):
         return n.id
@@ -51,10 +55,16 @@ def stores(n: ast.AST) -> tuple[set[str], set[str]]:
             k = _key(x.value)
             if k is not None:
                 weak.add(k)
-        elif isinstance(x, ast.Call) and isinstance(x.func, ast.Attribute):
-            k = _key(x.func.value)
-            if k is not None and k != 'self':
-                weak.add(k)  # a method call on the object may change it
+        elif isinstance(x, ast.Call):
+            if isinstance(x.func, ast.Attribute):
+                k = _key(x.func.value)
+                if k is not None and k != 'self':
+                    weak.add(k)  # a method call on the object may change it
+            if not (isinstance(x.func, ast.Name) and x.func.id in PURE_BUILTINS):
+                for a in list(x.args) + [kw.value for kw in x.keywords]:
+                    k = _key(a)
+                    if k is not None and k != 'self':
+                        weak.add(k)  # an object handed to other code may be changed by it
     return strong, weak
 
 
